@@ -31,7 +31,8 @@ ASSUMPTIONS = [
 MAX_SKIP_FRACTION = 0.1
 REQUIRED_MONITORS = ["mean_photon", "fock_prob", "all_fock_probs", "parity_expectation", "number_expectation", "quad_expectation",
                      "fidelity_vacuum", "fidelity_coherent", "reduced_dm", "wigner", "poly_quad_expectation",
-                     "subset-order:raises-or-honours", "state(modes=ordered-subset)",
+                     "subset-order:raises-or-honours", "state(modes=ordered-subset)", "displacement", "squeezing:reproduces-covariance",
+                     "purity", "marginal", "x/p_quad_values", "trace", "fidelity(vector)",
                      "nongauss:mean_photon", "nongauss:quad_expectation", "nongauss:reduced_dm", "nongauss:wigner", "nongauss:fock_prob",
                      "nongauss:parity_expectation", "nongauss:fidelity"]
 
